@@ -314,8 +314,10 @@ SCOPE = ('models: one float32 graph input x[1,4], operators over the stated alph
          '2 operators over ' + str(A2) + ', 3 operators over ' + str(A3) + ' (quick tier: sinks-only and all-intermediates export variants for 3 operators); tied constants: 2 operators over ' + str(AT) +
          ' where a binary operator may read the ONE shared constant ws[4,4] that is also the weight of every FCS; plus seeded random 4-operator graphs over all kinds')
 
+# a tensor that is exactly zero for every input (NEG(ABS(x)) + ABS(x)): degenerate calibration range [0, 0]
+DEGENERATE = [dict(ops=[('ABS', 0, -1), ('NEG', 1, -1), ('ADD', 2, 1)], outs=[3]), dict(ops=[('SUB', 0, 0)], outs=[1]), dict(ops=[('SUB', 0, 0), ('TANH', 1, -1)], outs=[2])]
 def cases(tier='quick', seed=0):
-    out = exhaustive(1, A1, consts=True) + exhaustive(2, A2, consts=False)
+    out = DEGENERATE + exhaustive(1, A1, consts=True) + exhaustive(2, A2, consts=False)
     e3 = exhaustive(3, A3, consts=False)
     if tier != 'thorough':
         keep = []
@@ -345,16 +347,58 @@ def _chunk_worker(args):
             if r['status'] != 'ok': out.append((rid, s, r))
     return out, len(specs) * len(rids)
 
+def _proc_entry(conn, a):
+    try: conn.send(_chunk_worker(a))
+    except BaseException as e:
+        try: conn.send((None, f'{type(e).__name__}: {e}'))
+        except Exception: pass
+    finally: conn.close()
+
+def _run_procs(args, procs):
+    """one forked process per chunk, at most `procs` at a time; a chunk whose process dies (crash inside TensorFlow / LiteRT) yields None
+    instead of hanging the whole run (multiprocessing.Pool would wait forever)"""
+    import multiprocessing as mp, time as _t
+    ctx = mp.get_context('fork'); pending = list(enumerate(args)); running = {}; results = {}
+    while pending or running:
+        while pending and len(running) < procs:
+            i, a = pending.pop(0); pc, cc = ctx.Pipe(False); p = ctx.Process(target=_proc_entry, args=(cc, a)); p.start(); cc.close(); running[i] = (p, pc)
+        progressed = False
+        for i in list(running):
+            p, pc = running[i]
+            if pc.poll(0):
+                try: results[i] = pc.recv()
+                except EOFError: results[i] = (None, f'process died (exit code {p.exitcode})')
+                p.join(); del running[i]; progressed = True
+            elif not p.is_alive():
+                p.join()
+                results[i] = pc.recv() if pc.poll(0.2) else (None, f'process died (exit code {p.exitcode})')
+                del running[i]; progressed = True
+        if not progressed: _t.sleep(0.02)
+    return [results[i] for i in range(len(args))]
+
 def run_many(rids, specs, n_samples=1, seed=0, mut=None, interp=True, procs=None, with_classes=False):
-    """-> (failures [(rid, spec, result)], number of pipeline runs); fork pool, real modules imported once in the parent"""
-    import multiprocessing as mp
+    """-> (failures [(rid, spec, result)], number of pipeline runs); forked worker processes, real modules imported once in the parent.
+    A worker that dies is re-run spec by spec; the (recipe, spec) that kills its process is reported as a failure with status 'crash'."""
     from ai_edge_quantizer import quantizer   # import in the parent so that the forked workers share it
     procs = procs or min(16, os.cpu_count() or 4)
     if not specs: return [], 0
     k = max(1, min(len(specs), procs * 4)); chunks = [specs[i::k] for i in range(k)]
     args = [(rids, c, n_samples, seed, mut, interp, with_classes) for c in chunks if c]
-    if procs <= 1: res = [_chunk_worker(a) for a in args]
-    else:
-        with mp.get_context('fork').Pool(min(procs, len(args))) as pool: res = pool.map(_chunk_worker, args, chunksize=1)
-    fails = [f for r, _ in res for f in r]; n = sum(c for _, c in res)
+    res = _run_procs(args, procs) if procs > 1 else [_chunk_worker(a) for a in args]
+    fails = []; n = 0; retry = []
+    for a, r in zip(args, res):
+        if r[0] is None: retry += [(rids_, [sp], *a[2:]) for rids_ in [[x] for x in a[0]] for sp in a[1]]
+        else: fails += r[0]; n += r[1]
+    if retry:
+        res2 = _run_procs(retry, procs); dead = []
+        for a, r in zip(retry, res2):
+            n += 1
+            if r[0] is None: dead.append((a, r[1]))
+            else: fails += r[0]
+        # which stage kills the process?  re-run without the LiteRT step
+        res3 = _run_procs([(a[0], a[1], a[2], a[3], a[4], False, a[6]) for a, _ in dead], procs) if dead else []
+        for (a, why), r in zip(dead, res3):
+            if r[0] is None: fails.append((a[0][0], a[1][0], dict(status='crash', stage='load/calibrate/quantize', exc='ProcessDied', msg=str(why), site=None)))
+            elif r[0]: fails += r[0]
+            else: fails.append((a[0][0], a[1][0], dict(status='interp', stage='litert', exc='ProcessDied', msg=f'LiteRT allocate_tensors / invoke on the returned model kills the process: {why}', site=None)))
     return fails, n
